@@ -123,6 +123,29 @@ def _prune_literal_if_trivial(plan, literal):
         plan.graph.add_edge(predecessor, successor, Dependency())
     plan.graph.remove_node(literal)
 """ % ast.unparse(keep))
+    psl = _find_func(pr_tree, "prune_source_literals", F)
+    facts["pruneSourceLiteralsShape"] = _same(psl, """
+def prune_source_literals(plan, *, inplace, predicate=None):
+    plan = get_mutable_plan(plan, inplace=inplace)
+    graph = plan.graph
+    source_literals = [
+        node for node in graph if type(node) is Literal and is_source_node(graph, node)
+    ]
+    if predicate:
+        source_literals = [node for node in source_literals if predicate(node)]
+    for node in source_literals:
+        graph.remove_node(node)
+    return plan
+""")
+    nu = _module("_util/networkx_util.py")
+    isn = _find_func(nu, "is_source_node", F)
+    facts["isSourceNodeShape"] = _same(isn, """
+def is_source_node(graph, node):
+    return not graph.pred[node]
+""") or _same(isn, """
+def is_source_node(graph, node):
+    return graph.in_degree(node) == 0
+""")
     names = sorted(facts)
     out = [PRELUDE, "namespace Uberjob.Gen.Stale", "",
            "/-- `safe_max`: maximum of the values that are not None, None if there is none. -/",
